@@ -16,7 +16,7 @@ _CONCEPTS = ['have-mod-91', 'own-01', 'be-located-at-91', 'rel-01', 'c-91', 'inc
 
 
 @st.composite
-def custom_tables(draw, reifications=True, normalizations=True, open_patterns=False, chains=False, concept_roles=False):
+def custom_tables(draw, reifications=True, normalizations=True, open_patterns=False, chains=False, concept_roles=True, foreign_reifications=False):
     """Random role table with the two restrictions the laws need (DESIGN section 3):
     (i) inversion-unambiguous: never both r and r-of defined, and defined roles end in at most one "-of";
     (ii) normalisation values are not keys and are double-inversion fixed points."""
@@ -40,12 +40,13 @@ def custom_tables(draw, reifications=True, normalizations=True, open_patterns=Fa
     spec = {'name': 'custom', 'roles': roles, 'normalizations': {}, 'reifications': [], 'pool': pool,
             'noop': chance(draw, 1, 6)}
     if chance(draw, 1, 5):
-        spec['top_role'] = pick(draw, [':TOP', ':top', ':ROOT', ':root-of'])
+        spec['top_role'] = pick(draw, [':TOP', ':top', ':ROOT', ':root-of', ':head-of'])
     if 'top_role' in spec:
         spec['pool'] = spec['pool'] + [spec['top_role']]
     if concept_roles and chance(draw, 1, 5):
-        spec['concept_role'] = ':isa'
-        spec['pool'] = spec['pool'] + [':isa']
+        # the concept role of a model only adds a defined role: '/' is ':instance' in every graph (penman.graph.CONCEPT_ROLE)
+        spec['concept_role'] = pick(draw, [':isa', ':concept', ':Instance', ':kind-of'])
+        spec['pool'] = spec['pool'] + [spec['concept_role']]
     defined_lits = [':' + r for r in lits + ofs]
     if normalizations and len(defined_lits) >= 2 and chance(draw, 2, 3):
         # AMR style crossed pairs  :a-of -> :b , :b-of -> :a   (values are defined, hence fixed points, and not keys)
@@ -65,7 +66,22 @@ def custom_tables(draw, reifications=True, normalizations=True, open_patterns=Fa
             used.add(c)
             src, tgt = pick(draw, [(':A1', ':A2'), (':A0', ':A1'), (':A2', ':A1'), (':src', ':tgt')])  # never reifiable themselves
             spec['reifications'].append([r, c, src, tgt])
+    if foreign_reifications and chance(draw, 1, 3):
+        # a reification for a role the role table does not list: reifiable, but still not a role of the model
+        spec['reifications'].append([':undeclared', 'undeclared-91', ':A1', ':A2'])
+        spec['pool'] = spec['pool'] + [':undeclared']
     return spec
+
+
+def case_variants(table, limit=4):
+    """Roles that differ from a reifiable role of the table by letter case only (:MOD, :Location): ordinary roles, not
+    reifiable and not defined."""
+    out = []
+    for r in [x[0] for x in table['reifications']][:limit]:
+        for v in (':' + r[1:].upper(), ':' + r[1:].capitalize()):
+            if v != r and v not in out:
+                out.append(v)
+    return out
 
 
 def model_specs(custom=True, noop=True, open_patterns=False, chains=False):
